@@ -63,6 +63,12 @@ SingletonLayersAreModuleRules ==
                 mr == [verb |-> r.verb, dir |-> r.dir, exc |-> r.exc, any |-> FALSE,
                        subs |-> {F(r.sub)}, objs |-> {F(y) : y \in r.objs}]
             IN P(L, r) = Pass(Den(T, mr.subs \cup mr.objs), imports, mr)
+\* binds spec/LayerLaws.tla (TLAPS proofs for arbitrary layer denotations) to LayerSem: the textual copy of the operators
+\* there gives the same outcome as LayerSem!LOutcome on every layer map, rule and import relation of this model
+LL == INSTANCE LayerLaws
+SDen(L) == [n \in DOMAIN L |-> LSet(T, L, n)]
+LayerLawsCopyAgrees == \A L \in Maps : \A r \in Rules(L) :
+                           LL!OutcomeN(SDen(L), imports, LNorm(r)) = LOutcome(T, L, imports, r)
 NonVacuous == \E L \in Maps : (\E r \in Rules(L) : P(L, r)) /\ (\E r \in Rules(L) : ~P(L, r))
 
 EmitState == EMIT => PrintT("STATE " \o ToJson([imports |-> SetToSeq(imports), modules |-> SetToSeq(T)]))
